@@ -375,14 +375,18 @@ def _ed_script_diff(old, new, tmpdir):
     return r.stdout.splitlines(True)
 
 
-def _apply(script, old, as_bytes):
+def _apply(script, old, as_bytes, materialize=False):
     from debian import debian_support as ds
     if as_bytes:
         script = [s.encode() for s in script]
         lines = [l.encode() for l in old]
     else:
         lines = list(old)
-    ds.patch_lines(lines, ds.patches_from_ed_script(script))
+    if materialize:
+        # the parsed patches are values of their own: collecting them first and applying them later must give the same
+        ds.patch_lines(lines, list(ds.patches_from_ed_script(script)))
+    else:
+        ds.patch_lines(lines, ds.patches_from_ed_script(script))
     return [l.decode() for l in lines] if as_bytes else lines
 
 
@@ -414,7 +418,7 @@ def bounded_ed(ctx):
                 for as_bytes in (False, True):
                     evals += 1
                     try:
-                        got = _apply(script, old, as_bytes)
+                        got = _apply(script, old, as_bytes, materialize=(evals % 2 == 0))
                         err = None
                     except Exception as e:
                         got, err = None, repr(e)
@@ -423,7 +427,7 @@ def bounded_ed(ctx):
                     if got != new:
                         return evals, nontrivial, samples, dict(
                             what="applying the ed script does not give the target lines", old=old, new=new,
-                            script=script, script_from=origin, bytes=as_bytes, got=got, error=err)
+                            script=script, script_from=origin, bytes=as_bytes, patches_collected_in_a_list_first=(evals % 2 == 0), got=got, error=err)
             if len(samples) < 3 and old != new and len(old) >= 2:
                 samples.append({"old": old, "new": new, "script": scripts[0][1]})
             # one corrupted command / unterminated block / explicit empty string: ValueError expected
@@ -462,7 +466,8 @@ def run_bounded(ctx):
     ev, nt, samples, fail = bounded_ed(ctx)
     ctx.bounded("B-18 ed scripts from difflib and `diff -e` applied to (old, new) pairs; corrupted commands",
                 ev, len(nt), "line lists over {x, y, '. ', '..', '2a', ' .', '.<tab>'} (lines that look like terminators or "
-                "commands included); scripts derived independently by difflib opcodes and by diff -e; str and bytes; "
+                "commands included); scripts derived independently by difflib opcodes and by diff -e; str and bytes; patches streamed "
+                "into patch_lines or collected in a list first (alternating); "
                 "each script also with one command corrupted / last block unterminated / explicit '' (ValueError "
                 "expected); non-trivial = distinct non-empty (script, str|bytes)",
                 "lists of <= %d lines exhaustive over 5 symbols (sampled in quick) + seeded longer ones" % (3 if ctx.tier == "quick" else 4),
